@@ -80,7 +80,7 @@ class FragmentsEngine(Engine):
     tiers = {"quick": 60000, "thorough": 12000000}
     chunks = {"quick": 500, "thorough": 20000}
     rule = ("each case is a Chooser-generated history of 1..12 insert/append/extend operations on one Fragments "
-            "object (positions 0..40 biased to the edges of existing fragments, chunks of 0..6 unique bytes, fill "
+            "object or two interleaved live ones (positions 0..40 biased to the edges of existing fragments, chunks of 0..6 unique bytes, fill "
             "byte drawn), checked step by step against a sparse-array model; distinct = digest of the abstract "
             "operation list; non-trivial = at least two operations and at least one of them interacts with bytes "
             "already stored (collision, adjacency, hole fit, insert before an existing fragment, empty chunk)")
@@ -93,7 +93,7 @@ class FragmentsEngine(Engine):
     stub_components = []
     expected_probes = ["insert-before-first", "between-adjacent", "exact-fit-hole", "overlap-pred", "overlap-succ",
                        "overlap-both", "empty-at-occupied", "nonempty-over-earlier-empty", "op-after-failed-op",
-                       "backwards-insert", "extend-partial"]
+                       "backwards-insert", "extend-partial", "two-live-buffers"]
 
     def init_worker(self, tree, wdir):
         import_fresh_bisturi(tree)
@@ -118,26 +118,36 @@ class FragmentsEngine(Engine):
     # -- one run ---------------------------------------------------------------------
     def execute(self, scenario, ch):
         out = Outcome()
-        fill = FILLS[ch.draw("fill", len(FILLS))]
-        f = self.Fragments(fill) if fill != b"." else self.Fragments()
-        model = SparseModel(fill)
-        uniq = _Bytes(fill)
+        ev = out.events.append
+        st = out.stats
+        # one buffer, or (a quarter of the runs) two live buffers whose operations interleave: state
+        # shared between Fragments objects must show as interference
+        nbuf = 2 if ch.chance("two-buffers", 1, 4) else 1
+        bufs = []
+        for b in range(nbuf):
+            fill = FILLS[ch.draw("fill", len(FILLS))]
+            f = self.Fragments(fill) if fill != b"." else self.Fragments()
+            bufs.append([f, SparseModel(fill), _Bytes(fill), False])
+            ev("buffer %d fill=%r" % (b, fill))
+        if nbuf == 2:
+            st["probe:two-live-buffers"] += 1
         nops = 1 + ch.draw("n-ops", 12)
         history = []
         interacting = 0
-        failed_before = False
-        ev = out.events.append
-        ev("fill=%r" % fill)
-        st = out.stats
 
         def violation(oracle, detail):
             out.violation = {"oracle": oracle, "actor": "", "detail": detail}
             ev("VIOLATION %s: %s" % (oracle, detail))
 
         for step in range(nops):
+            bi = ch.draw("buffer", nbuf)
+            f, model, uniq, failed_before = bufs[bi]
             kind = ch.weighted("op", [6, 3, 1])          # insert / append / extend
             before = f.tobytes()
             cur = f.current_offset
+            if before != model.render():
+                return self._finish(out, history, interacting, violation, "C11.render",
+                                    "buffer %d changed while another buffer was operated on: %r, model says %r" % (bi, before, model.render()))
             if failed_before:
                 st["probe:op-after-failed-op"] += 1
             if kind == 2:
@@ -152,7 +162,7 @@ class FragmentsEngine(Engine):
                     p = cur
                 chunks = [chunk]
                 opdesc = ("insert" if kind == 0 else "append", p, len(chunk))
-            history.append(opdesc)
+            history.append((bi,) + opdesc)
 
             # ---- probes on the model, before the operation
             inter = self._probes(st, model, p, chunks, kind, cur)
@@ -189,21 +199,16 @@ class FragmentsEngine(Engine):
                 else:
                     may_stop.append(m.copy())   # raising on an empty chunk is not forbidden
                     m.store(q, c)
-            ev("%s%r -> %s cursor=%r bytes=%r" % (opdesc[0], opdesc[1:], "raised" if raised else "ok", cur_after, after))
+            ev("[%d] %s%r -> %s cursor=%r bytes=%r" % (bi, opdesc[0], opdesc[1:], "raised" if raised else "ok", cur_after, after))
             if raised is not None:
                 st["fault:collision-raised"] += 1
-                failed_before = True
-                if not must_raise and not any(not c for c in chunks):
+                bufs[bi][3] = True
+                ok = [s_ for s_ in may_stop if s_.render() == after]
+                if not must_raise and (not any(not c for c in chunks) or not ok):
                     return self._finish(out, history, interacting, violation, "C11.raise-iff-occupied",
                                         "%s%r raised (%s) although no byte of the range is occupied; model cells=%r" % (
                                             opdesc[0], opdesc[1:], str(raised)[:60], sorted(model.cells)))
-                ok = [s for s in may_stop if s.render() == after]
                 if not ok:
-                    if not must_raise:
-                        # raised on an empty chunk?  acceptable only if the bytes are those of an accepted stop
-                        return self._finish(out, history, interacting, violation, "C11.raise-iff-occupied",
-                                            "%s%r raised (%s) although no byte of the range is occupied; model cells=%r" % (
-                                                opdesc[0], opdesc[1:], str(raised)[:60], sorted(model.cells)))
                     return self._finish(out, history, interacting, violation, "C11.failed-op-intact",
                                         "after the failed %s%r tobytes()=%r, expected %r" % (opdesc[0], opdesc[1:], after, may_stop[-1].render()))
                 if len(chunks) > 1 and ok[-1].cells != model.cells:
@@ -222,7 +227,12 @@ class FragmentsEngine(Engine):
                 if after != model.render():
                     return self._finish(out, history, interacting, violation, "C11.render",
                                         "after %s%r tobytes()=%r, model says %r" % (opdesc[0], opdesc[1:], after, model.render()))
-            out.state_sigs += (digest((tuple(model.fragments()), model.extent)),)
+            bufs[bi][1] = model
+            out.state_sigs += (digest((tuple(map(tuple, model.fragments())), model.extent)),)
+        for bi, (f, model, _, _) in enumerate(bufs):
+            if f.tobytes() != model.render():
+                return self._finish(out, history, interacting, violation, "C11.render",
+                                    "at the end buffer %d holds %r, model says %r" % (bi, f.tobytes(), model.render()))
         return self._finish(out, history, interacting, None, None, None)
 
     def _finish(self, out, history, interacting, violation, oracle, detail):
